@@ -156,8 +156,20 @@ pub fn drive(tier: &str) -> i32 {
     if (run.cases as usize) < total_cases {
         run.capped = true;
     }
+    // history independence: the call programs after each disturbing prefix (vcore::disturb)
+    let mut dtexts: Vec<String> = arg_programs().iter().filter(|c| !c.expect_reject).map(|c| print_default(&c.prog).text).collect();
+    let hd = if quick { 2 } else { 3 };
+    for idx in 0..history_count(hd) {
+        let ev = history_at(idx, hd);
+        if !ev.is_empty() {
+            dtexts.push(print_default(&history_program(&ev, false)).text);
+        }
+    }
+    let dgroup = super::disturbw::run_group(&mut run, &pool, &dtexts, if quick { 5 } else { 1 }, false);
     let mut ev = Evidence::new("model_checking");
-    ev.set("rule", "E1 argument shapes: parameter types {%, &, !, #, $, record, array} x argument shapes {variable, array element, record field, STRING*3 variable, literal, literal of another numeric type, arithmetic, parenthesised variable, variable of another numeric type (must be rejected), user function call, nested call with its own by-reference argument} x callee actions {leave, assign, assign twice, pass on by reference} x {SUB, FUNCTION}; the same variable passed twice; array elements by reference whose subscripts the callee changes, have side effects or contain FUNCTION calls (the element is fixed when the call is made); every accepted one also written with LET and CALL Name(arguments); recursion depths 0..3 with a local per activation; size ladders: subprograms with 1..16 parameters of rotating types (every by-reference / by-value mix up to 4 parameters, all / none / alternating / all-but-one / only-first / only-last beyond), called twice; call chains of 2..33 subprograms (every third STATIC) passing a parameter on by reference; recursion to depth 8..120 with a local and a by-reference accumulator; 4..40 locals shadowing module-level variables of the same names. E2 call histories: the full tree of event sequences up to the depth over {call STATIC S, call O (which calls S), call P, Show F(1) with STATIC FUNCTION F as an argument expression, recursive R(2), assign DIM SHARED G, call STATIC Tally (which calls S), Deep 2 (a recursive ordinary SUB with a local per activation that calls S at the bottom and Tally on the way back)}, at module level and inside an ordinary SUB; every history is compiled to a program, run on the implementation and on the reference model (static locals of S, Tally and F, SHARED values); the VM monitor checks one context state at module level and 1 + (STATIC subprograms called) memory blocks at the end.");
+    ev.set("groups", json!([dgroup]));
+    ev.assume(super::disturbw::ASSUMPTION);
+    ev.set("rule", "E1 argument shapes: parameter types {%, &, !, #, $, record, array} x argument shapes {variable, array element, record field, STRING*3 variable, literal, literal of another numeric type, arithmetic, parenthesised variable, variable of another numeric type (must be rejected), user function call, nested call with its own by-reference argument} x callee actions {leave, assign, assign twice, pass on by reference} x {SUB, FUNCTION}; the same variable passed twice; array elements by reference whose subscripts the callee changes, have side effects or contain FUNCTION calls (the element is fixed when the call is made); every accepted one also written with LET and CALL Name(arguments); recursion depths 0..3 with a local per activation; size ladders: subprograms with 1..16 parameters of rotating types (every by-reference / by-value mix up to 4 parameters, all / none / alternating / all-but-one / only-first / only-last beyond), called twice; call chains of 2..33 subprograms (every third STATIC) passing a parameter on by reference; recursion to depth 8..120 with a local and a by-reference accumulator; 4..40 locals shadowing module-level variables of the same names. E2 call histories: the full tree of event sequences up to the depth over {call STATIC S, call O (which calls S), call P, Show F(1) with STATIC FUNCTION F as an argument expression, recursive R(2), assign DIM SHARED G, call STATIC Tally (which calls S), Deep 2 (a recursive ordinary SUB with a local per activation that calls S at the bottom and Tally on the way back)}, at module level and inside an ordinary SUB; every history is compiled to a program, run on the implementation and on the reference model (static locals of S, Tally and F, SHARED values); the VM monitor checks one context state at module level and 1 + (STATIC subprograms called) memory blocks at the end. History independence: the argument-shape programs and the call histories of small depth run after each disturbing prefix (a run-time error trapped while by-reference values wait to be copied back, in the middle of an argument list, ...; see the group) must print and end as they do alone.");
     ev.set("exhaustive", !run.capped);
     ev.set("states", histories);
     ev.set("transitions", transitions);
